@@ -221,8 +221,54 @@ func fullPool(r *vh.Run, rng *vh.RNG, name string, v2 bool) {
 	w.Finish(w.Stats["evictions"] > 0, "full-pool", fmt.Sprintf("full-pool-v2:%v", v2))
 }
 
+// heavyParent: the first pool transaction that does not fit into the block is the parent of a later,
+// small one: the block must stop there (a prefix), not skip it (a child without its parent).
+func heavyParent(r *vh.Run, rng *vh.RNG, name string, mode int) {
+	w := poolrig.NewWorld(r, rng, name, chainx.PoolNet(rng, 1, 1000))
+	g := &poolrig.Gen{W: w, Rng: rng}
+	g.Track = poolrig.NewTracker(w)
+	tip := 0
+	for i := 0; i < 4; i++ {
+		tip = w.GrowRandom(tip, 0)
+	}
+	w.Refresh()
+	cs := w.Node.CM.TipState()
+	free := w.FreeCoins()
+	if len(free) < 3 {
+		w.Finish(false, "heavy-parent-skipped")
+		return
+	}
+	big := 1_100_000 + rng.Intn(300_000)
+	switch mode {
+	case 0: // all v2
+		a := w.SpendV2(cs, free[0:1], 1, poolrig.Fee(30), big)
+		p := w.SpendV2(cs, free[1:2], 2, poolrig.Fee(20), big)
+		c := w.SpendV2(cs, []poolrig.Coin{poolrig.CoinV2(p, 0)}, 1, poolrig.Fee(10), 0)
+		c2 := w.SpendV2(cs, []poolrig.Coin{poolrig.CoinV2(c, 0)}, 1, poolrig.Fee(9), 0)
+		s := w.SpendV2(cs, free[2:3], 1, poolrig.Fee(5), 0)
+		g.AddV2(w.TipID(), []types.V2Transaction{a, p, c, c2, s}, nil, "fresh", -1, false)
+	case 1: // all v1
+		a := w.SpendV1(cs, free[0:1], 1, poolrig.Fee(30), big)
+		p := w.SpendV1(cs, free[1:2], 2, poolrig.Fee(20), big)
+		c := w.SpendV1(cs, []poolrig.Coin{poolrig.CoinV1(p, 0)}, 1, poolrig.Fee(10), 0)
+		s := w.SpendV1(cs, free[2:3], 1, poolrig.Fee(5), 0)
+		g.AddV1([]types.Transaction{a, p, c, s}, nil, "fresh", -1, false)
+	default: // a heavy v1 transaction, then the heavy parent and its child in the v2 slice
+		a := w.SpendV1(cs, free[0:1], 1, poolrig.Fee(30), big)
+		g.AddV1([]types.Transaction{a}, nil, "fresh", -1, false)
+		p := w.SpendV2(cs, free[1:2], 2, poolrig.Fee(20), big)
+		c := w.SpendV2(cs, []poolrig.Coin{poolrig.CoinV2(p, 1)}, 1, poolrig.Fee(10), 0)
+		g.AddV2(w.TipID(), []types.V2Transaction{p, c}, nil, "fresh", -1, false)
+	}
+	// MineBlock + AddBlocks on the node and on a linear twin (oracle mined-block-rejected)
+	_, ok := w.Mine()
+	w.Refresh()
+	g.Track.Check()
+	w.Finish(ok, "heavy-parent", fmt.Sprintf("heavy-parent-mode:%d", mode))
+}
+
 func Run(r *vh.Run) {
-	r.Rule = "three case families. history: one real chain.Manager on a growing fork tree driven by 50-90 steps mixing the C14 submission classes (fresh, chained/ephemeral, known, conflicting at k, invalid at k, stale/unknown basis) with blocks confirming pool prefixes, fork branches that overtake the tip (reorg depth 1-3), parent/child sets followed by an unrelated block, and blocks assembled by coreutils.MineBlock; non-trivial = at least one reorg and one accepted set. exact-weight: a pool prefix weighing MaxBlockWeight-d for d in {0,1,5,11,12,13,500}, v1 or v2, with or without v2 block data, then MineBlock twice. full-pool: 14 transactions of 1.5-1.9M weight with distinct fee rates (eviction at 10 x MaxBlockWeight), then MineBlock; distinct = distinct op lists"
+	r.Rule = "four case families. history: one real chain.Manager on a growing fork tree driven by 50-90 steps mixing the C14 submission classes (fresh, chained/ephemeral, known, conflicting at k, invalid at k, stale/unknown basis) with blocks confirming pool prefixes, fork branches that overtake the tip (reorg depth 1-3), parent/child sets followed by an unrelated block, and blocks assembled by coreutils.MineBlock; non-trivial = at least one reorg and one accepted set. heavy-parent: a pool whose first non-fitting transaction (1.1-1.4M weight behind another one) is the parent of later small ones, v2 / v1 / mixed, then MineBlock. exact-weight: a pool prefix weighing MaxBlockWeight-d for d in {0,1,5,11,12,13,500}, v1 or v2, with or without v2 block data, then MineBlock twice. full-pool: 14 transactions of 1.5-1.9M weight with distinct fee rates (eviction at 10 x MaxBlockWeight), then MineBlock; distinct = distinct op lists"
 	rng := vh.NewRNG(r.Seed).Fork()
 	n := r.Pick(60, 1200)
 	for i := 0; i < n; i++ {
@@ -232,6 +278,9 @@ func Run(r *vh.Run) {
 	for i, d := range ds {
 		exactWeight(r, rng.Fork(), fmt.Sprintf("w%d-v2", i), d, true, rng.Intn(3))
 		exactWeight(r, rng.Fork(), fmt.Sprintf("w%d-v1", i), d, false, rng.Intn(3))
+	}
+	for i := 0; i < r.Pick(3, 12); i++ {
+		heavyParent(r, rng.Fork(), fmt.Sprintf("p%d", i), i%3)
 	}
 	for i := 0; i < r.Pick(2, 8); i++ {
 		fullPool(r, rng.Fork(), fmt.Sprintf("f%d", i), i%2 == 0)
